@@ -82,11 +82,25 @@ def build(timeout=3000):
     return dict(ok=p.returncode == 0, failed=failed, errors=errs, log_tail=log[-3000:], wall=time.time() - t0)
 
 
+def property_files(pid):
+    """Properties/<pid>.lean and, when present, its companion Properties/<pid>Run.lean (run-level theorems that
+    cannot live in the main file because a lemma file they need imports it)"""
+    out = []
+    for nm in (pid, pid + "Run"):
+        if os.path.exists(os.path.join(PROPS_DIR, f"{nm}.lean")):
+            out.append(nm)
+    return out
+
+
 def property_theorems(pid):
-    """names of the theorems stated in Properties/<pid>.lean (fully qualified)"""
-    path = os.path.join(PROPS_DIR, f"{pid}.lean")
-    if not os.path.exists(path):
-        return []
+    """names of the theorems stated in Properties/<pid>.lean (+ companion) (fully qualified)"""
+    names = []
+    for nm in property_files(pid):
+        names += _file_theorems(os.path.join(PROPS_DIR, f"{nm}.lean"))
+    return names
+
+
+def _file_theorems(path):
     with open(path) as fh:
         src = strip_comments(fh.read())
     ns = []
@@ -117,7 +131,8 @@ def audit(pid, timeout=1200):
     if os.path.exists(cpath):
         with open(cpath) as fh:
             return json.load(fh)
-    src = f"import AquaVerif.Properties.{pid}\n" + "\n".join(f"#print axioms {n}" for n in names) + "\n"
+    src = "".join(f"import AquaVerif.Properties.{nm}\n" for nm in property_files(pid)) + \
+        "\n".join(f"#print axioms {n}" for n in names) + "\n"
     fpath = os.path.join(CACHE, f"Audit_{pid}.lean")
     with open(fpath, "w") as fh:
         fh.write(src)
